@@ -1,5 +1,7 @@
 """Parallels .hdd directory builder (DiskDescriptor.xml + plain / expanding images) + oracle.
-spec: {"storages": [{"start", "end", "kind": "plain"|"hds", "hds": <fmt_hds spec>}...] in LISTED order, "size"}"""
+spec: {"storages": [{"start", "end", "kind": "plain"|"hds", "hds": <fmt_hds spec with an optional parent chain>}...] in LISTED order, "size",
+"depth": number of snapshots in the chain (layer 0 = the snapshot that is opened, layer depth-1 = the root), "opens": how many times
+HDD.open() is called on the one HDD object before the stream under test is taken (every open must give the same disk)}"""
 from __future__ import annotations
 
 import os
@@ -31,23 +33,47 @@ def open_real(fh, spec):
     atexit.register(shutil.rmtree, d, True)
     root = os.path.join(d, "disk.hdd")
     os.mkdir(root)
+    depth = spec.get("depth", 1)
+    guids = [GUID] + ["{%08x-6958-40ff-92a7-860e329aab41}" % (0x10 + L) for L in range(1, depth)]  # layer 0 (top) .. root
     xml = ['<?xml version="1.0" encoding="UTF-8"?>', "<Parallels_disk_image><Disk_Parameters><Disk_size>%d</Disk_size></Disk_Parameters><StorageData>" % (spec["size"] // 512)]
     for i, s in enumerate(spec["storages"]):
-        name = f"disk.hdd.{i}.{GUID}.hds"
         n = (s["end"] - s["start"]) * 512
-        if s["kind"] == "plain":
-            with open(os.path.join(root, name), "wb") as f:
-                f.write(bytes(pattern(i, j) for j in range(n)))
-        else:
-            sf = fmt_hds.build(s["hds"])
-            with open(os.path.join(root, name), "wb") as f:
-                sf.seek(0)
-                f.write(sf.read())
-        xml.append(f"<Storage><Start>{s['start']}</Start><End>{s['end']}</End><Blocksize>8</Blocksize><Image><GUID>{GUID}</GUID><Type>{'Plain' if s['kind'] == 'plain' else 'Compressed'}</Type><File>{name}</File></Image></Storage>")
-    xml.append(f"</StorageData><Snapshots><Shot><GUID>{GUID}</GUID><ParentGUID>{{00000000-0000-0000-0000-000000000000}}</ParentGUID></Shot></Snapshots></Parallels_disk_image>")
+        images = []
+        layers = list(range(depth))
+        if i % 2:
+            layers.reverse()  # the order of the Image elements inside a Storage carries no meaning
+        for L in layers:
+            name = f"disk.hdd.{i}.{guids[L]}.hds"
+            if s["kind"] == "plain":
+                with open(os.path.join(root, name), "wb") as f:
+                    f.write(bytes(pattern(i + 7 * L, j) for j in range(n)))  # only the top layer of a plain storage is ever visible
+                kind = "Plain"
+            else:
+                h = s["hds"]
+                for _ in range(L):
+                    h = h.get("parent") if h else None
+                if h is None:  # this storage's chain is shorter: the remaining (older) layers hold no cluster
+                    h = dict(s["hds"], bat=[None] * s["hds"]["nclusters"])
+                    h.pop("parent", None)
+                sf = fmt_hds.build({k_: v_ for k_, v_ in h.items() if k_ != "parent"}, L)
+                with open(os.path.join(root, name), "wb") as f:
+                    sf.seek(0)
+                    f.write(sf.read())
+                kind = "Compressed"
+            images.append(f"<Image><GUID>{guids[L]}</GUID><Type>{kind}</Type><File>{name}</File></Image>")
+        xml.append(f"<Storage><Start>{s['start']}</Start><End>{s['end']}</End><Blocksize>8</Blocksize>{''.join(images)}</Storage>")
+    shots = [f"<Shot><GUID>{guids[L]}</GUID><ParentGUID>{guids[L + 1] if L + 1 < depth else '{00000000-0000-0000-0000-000000000000}'}</ParentGUID></Shot>" for L in range(depth)]
+    if spec.get("shots_reversed"):
+        shots.reverse()
+    xml.append(f"</StorageData><Snapshots>{''.join(shots)}</Snapshots></Parallels_disk_image>")
     with open(os.path.join(root, "DiskDescriptor.xml"), "w") as f:
         f.write("".join(xml))
-    return HDD(Path(root)).open()
+    hdd = HDD(Path(root))
+    for _ in range(spec.get("opens", 1) - 1):
+        hdd.open()  # earlier opens of the same object (and of an ancestor snapshot) must not change what a later open returns
+        if depth > 1:
+            hdd.open(guids[1])
+    return hdd.open()
 
 
 def oracle(spec, off, length):
@@ -82,12 +108,17 @@ def gen_specs(rng: random.Random, n, hints=None):
                 sts.append({"start": cur, "end": cur + ln, "kind": "plain"})
             else:
                 h = fmt_hds.gen_specs(rng, 1)[0]
-                h.pop("parent", None)
                 ln = h["size_sectors"]
                 sts.append({"start": cur, "end": cur + ln, "kind": "hds", "hds": h})
             cur += ln
         rng.shuffle(sts)  # storages may be listed in any order in DiskDescriptor.xml
-        out.append({"storages": sts, "size": cur * 512})
+        depth = 1
+        for s_ in sts:
+            h, d_ = s_.get("hds"), 0
+            while h:
+                d_, h = d_ + 1, h.get("parent")
+            depth = max(depth, d_)
+        out.append({"storages": sts, "size": cur * 512, "depth": depth, "opens": rng.choice([1, 1, 2, 3]), "shots_reversed": rng.random() < 0.5})
     return out
 
 
